@@ -157,8 +157,85 @@ let handle_encode key ropts o =
          (if sig_valid k.kref sg u then "1" else "0") mres (show_result (verify sig_valid json_parse [k] o tok))
      | _ -> "signerr")
 
+(* ---- JWK export / import on the material model (model/Jwk.v) ----
+   X line:  C09|X|<xkeys>|<tag>      xkeys = id.st.pr.alg.kid.mat.<P|S>.<pub> ; ...
+            pub = point (hex) for ES, <modulus hex>:<exponent> for RS/PS, - otherwise
+   I line:  C09|I|<json text hex>|<canonical parse | !>|<on-curve table>|<tag>
+            table = ~ | <256|384|512>:<point hex>:<0|1>,... (computed by the harness with crypto/elliptic) *)
+let hsz_of s = match s with "256" -> H256 | "384" -> H384 | "512" -> H512 | _ -> failwith "hsz"
+let hsz_name = function H256 -> "256" | H384 -> "384" | H512 -> "512"
+let show_kid = function KTink id -> "T" ^ dec_of_n id | KCustom c -> "C" ^ hexs c | KIgnored -> "I"
+let show_pub (k : pubkey) : string =
+  match k with
+  | PubES (_, pt, kid) -> string_of_bytes (alg_name k) ^ "." ^ show_kid kid ^ "." ^ hexs pt
+  | PubRSA (_, _, n, e, kid) -> string_of_bytes (alg_name k) ^ "." ^ show_kid kid ^ "." ^ hexs n ^ ":" ^ dec_of_n e
+
+(* the handle: ids 1..n stand for the random ids; print key, status, primary *)
+let show_handle (oc : hsz -> n list -> bool) (j : json) (pks : pubkey list) : string =
+  let ids = List.mapi (fun i _ -> n_of_int (i + 1)) pks in
+  match jwk_import_handle oc ids j with
+  | None -> failwith "import_handle disagrees with import"
+  | Some (ks, prim) ->
+    String.concat "," (List.map (fun en ->
+        (match en.e_key with KPub p -> show_pub p | _ -> failwith "imported entry is not a public key")
+        ^ "." ^ (match en.e_status with Enabled -> "E" | Disabled -> "D" | Destroyed -> "X")
+        ^ (if en.e_id = prim then "1" else "0")) ks)
+
+let show_import (oc : hsz -> n list -> bool) (j : json) : string =
+  match jwk_import oc j with
+  | None -> "rej"
+  | Some pks -> "ok " ^ show_handle oc j pks
+
+let parse_xkey (s : string) : entry =
+  match String.split_on_char '.' s with
+  | [id; st; _; alg; kid; _; v; pub] ->
+    let kidr = (match kid.[0] with
+        | 'T' -> KTink (n_of_dec id)
+        | 'C' -> KCustom (unhex (String.sub kid 1 (String.length kid - 1)))
+        | _ -> KIgnored) in
+    let fam = if String.length alg >= 2 then String.sub alg 0 2 else "" in
+    let pk =
+      if String.length alg = 5 && fam = "ES" then Some (PubES (hsz_of (String.sub alg 2 3), unhex pub, kidr))
+      else if String.length alg = 5 && (fam = "RS" || fam = "PS") then
+        (match String.split_on_char ':' pub with
+         | [n; e] -> Some (PubRSA ((if fam = "RS" then RS else PS), hsz_of (String.sub alg 2 3), unhex n, n_of_dec e, kidr))
+         | _ -> failwith "rsa pub")
+      else None in
+    { e_key = (match pk with
+          | None -> KOther (n_of_int 0)
+          | Some p -> if v = "S" then KPriv (p, []) else KPub p);
+      e_status = (if st = "E" then Enabled else Disabled);
+      e_id = n_of_dec id }
+  | _ -> failwith "xkey"
+
+let handle_export (keys : string) : string =
+  let ks = List.map parse_xkey (List.filter (fun x -> x <> "") (String.split_on_char ';' keys)) in
+  (* the exported points are public points of real keys (the harness checks the
+     annotation against crypto/ecdh): on the curve *)
+  let pts = List.concat_map (fun en -> match en.e_key with KPub (PubES (a, pt, _)) -> [(a, pt)] | _ -> []) ks in
+  let oc a pt = List.mem (a, pt) pts in
+  match jwk_export ks with
+  | None -> "refused"
+  | Some j -> "jwk=" ^ String.concat "," (canon true j) ^ " imp=" ^ show_import oc j
+
+let handle_import (parsed : string) (table : string) : string =
+  if parsed = "!" then "rej" else
+    let j = (match parse_value (String.split_on_char ',' parsed) with
+        | (v, []) -> v
+        | _ -> failwith "json: trailing tokens") in
+    let tab = if table = "~" then [] else
+        List.map (fun e -> match String.split_on_char ':' e with
+            | [a; pt; b] -> ((hsz_of a, unhex pt), b = "1")
+            | _ -> failwith "on-curve table") (String.split_on_char ',' table) in
+    let oc a pt = match List.assoc_opt (a, pt) tab with
+      | Some b -> b
+      | None -> failwith ("on_curve asked on a point the harness did not judge: " ^ hsz_name a ^ ":" ^ hexs pt) in
+    show_import oc j
+
 let handle (line : string) : string =
   match String.split_on_char '|' line with
   | [_; ("V" | "J" as kind); _; keys; o; tok; sv; hp; pp; _] -> handle_verify kind keys o tok sv hp pp
   | [_; "E"; _; key; ropts; o; _] -> handle_encode key ropts o
+  | [_; "X"; keys; _] -> handle_export keys
+  | [_; "I"; _; parsed; table; _] -> handle_import parsed table
   | _ -> failwith "case"
